@@ -214,6 +214,56 @@ def check_case(ctx: Ctx, c: dict):
                 for i, (en, e0) in enumerate(zip(escs_n, escs_0)):
                     if not _check_pair(ctx, d, dict(c, chunk=i), n, en, e0, "send"):
                         break
+    elif k == "reconf":
+        # the terminal object's layer count changes between commands (assignment, detect_tmux(), clone_with):
+        # every command must be wrapped with the count configured at the moment it is sent
+        from tupimage import graphics_terminal as gt
+        out = Rec()
+        t = gt.GraphicsTerminal(out_command=out, out_display=io.BytesIO(), in_response=io.BytesIO(), in_userinput=io.BytesIO(),
+                                num_tmux_layers=c["initial"], max_command_size=c.get("max"))
+        ref_out = Rec()
+        ref = gt.GraphicsTerminal(out_command=ref_out, out_display=io.BytesIO(), in_response=io.BytesIO(), in_userinput=io.BytesIO(),
+                                  num_tmux_layers=0, max_command_size=c.get("max"))
+        cur = t
+        for step in c["steps"]:
+            how = step["how"]
+            if how == "assign":
+                cur.num_tmux_layers = step["n"]
+            elif how == "detect":
+                with _env(step["tmux"], step["term"]):
+                    cur.detect_tmux()
+            elif how == "clone":
+                cur = cur.clone_with(num_tmux_layers=step["n"])
+            n = cur.num_tmux_layers
+            desc = step["cmd"]
+            data = data_bytes(desc.get("data"))
+            pos, rpos = len(out.getvalue()), len(ref_out.getvalue())
+            growth = len(real_template(n)) - len(real_template(0))
+            if c.get("max") is not None:
+                cur.max_command_size = c["max"] + growth
+            try:
+                cur.send_command(build(desc))
+                ref.send_command(build(desc))
+            except ValueError:
+                ctx.count("reconf:too-small")
+                continue
+            en_all, e0_all = out.getvalue()[pos:], ref_out.getvalue()[rpos:]
+            ctx.count("reconf:layers:%d" % n)
+            sp = d.ask(f"spec_splitstream {hx(en_all)}")
+            sp0 = d.ask(f"spec_splitstream {hx(e0_all)}")
+            escs_n = None if sp in ("none", "bad") else [] if sp == "empty" else [bytes.fromhex(x) for x in sp.split(" ")]
+            escs_0 = None if sp0 in ("none", "bad") else [] if sp0 == "empty" else [bytes.fromhex(x) for x in sp0.split(" ")]
+            if escs_n is None or escs_0 is None or len(escs_n) != len(escs_0):
+                ctx.violation("after reconfiguring the layer count the stream is not the expected number of wrapped escape codes", dict(c, at=step),
+                              {"layers_now": n, "emitted": en_all[:200].hex()}, key="c11-stream-shape")
+                break
+            ok = True
+            for en, e0 in zip(escs_n, escs_0):
+                if not _check_pair(ctx, d, dict(c, at=step), n, en, e0, "send_command after reconfiguration"):
+                    ok = False
+                    break
+            if not ok:
+                break
     elif k == "env":
         tmux, term, cur, cfg = c["tmux"], c["term"], c["cur"], c["cfg"]
         spec = d.ask(f"spec_detect {_optb(tmux)} {_optb(term)}") == "1"
@@ -376,6 +426,20 @@ def cases(ctx: Ctx):
     terms = [None, "", "xterm", "xterm-256color", "screen", "screen-256color", "tmux", "tmux-256color", "xterm-tmux", "my-screen.x",
              "scree", "tmu", "SCREEN", "Tmux", "screentmux", "tmuxscreen", "scr een", "xtmu x", "linux", "é-tmux-中"]
     i = 0
+    for _ in range(40 if ctx.quick else 400):
+        steps = []
+        for _j in range(rng.randrange(2, 6)):
+            how = rng.choice(["assign", "detect", "clone", "same"])
+            st = {"how": how, "cmd": {"type": rng.choice(["T", "P", "D"]), "f": {"image_id": rng.randrange(1, 99)},
+                                      "data": ({"len": rng.randrange(0, 200), "pat": "rand", "seed": rng.randrange(99)})}}
+            if st["cmd"]["type"] != "T":
+                st["cmd"]["data"] = None
+            if how in ("assign", "clone"):
+                st["n"] = rng.randrange(0, 4)
+            if how == "detect":
+                st["tmux"], st["term"] = rng.choice([(None, "xterm"), ("/tmp/tmux-0/default,1,0", "tmux-256color"), ("/t,1,0", "screen"), ("", "tmux")])
+            steps.append(st)
+        yield {"k": "reconf", "initial": rng.randrange(0, 4), "max": rng.choice([None, None, 150, 400]), "steps": steps}
     for tm in tmuxes:
         for te in terms:
             for cur, cfg in ([(0, "auto"), (3, 2)] if not quick else [((0, "auto") if i % 3 else (2, 0))]):
